@@ -72,6 +72,9 @@ func vwDebugBounds(depth, devs int) (int, int) {
 func vwRun(r *ev.R, name string, o vwOpts, st *vwStats, depth, devs int, note string) mc.Result {
 	depth, devs = vwDebugBounds(depth, devs)
 	o.noPrune = os.Getenv("VERIF_DEBUG_NOPRUNE") == "1"
+	if os.Getenv("VERIF_DEBUG_MINIMAL") == "1" { // experiments: commits + next-term installs + replicate/probe faults only
+		o.maxCrashes, o.maxOutages, o.evSame, o.evTrailing, o.evRepair, o.evCrashReplace, o.evHedge, o.evLocalLost, o.evOrder = 0, 0, false, false, false, false, false, false, false
+	}
 	return mc.Run(r, mc.System{
 		Name: name, New: func() mc.Instance { return newVW(o, st) },
 		MaxDepth: depth, MaxDeviations: devs, Bounds: vwBounds(o), Note: note,
